@@ -378,6 +378,7 @@ func c04ShortRead(p *core.Program, r *core.Report) {
 		r.Undec("C04.shortread", c, "-", "not found")
 		return
 	}
+	fi = tailInlined(p, fi, 0) // a dispatcher over per-mode helpers reads as one body
 	c04FillLoop(p, r, fi, c)
 	rn := recvName(fi)
 	norm := func(e ast.Node) string {
